@@ -27,6 +27,10 @@ Knife == { <<0, 0, 0>>, <<2, 0, 0>>, <<0, 150, 1>>, <<0, 150, -1>>, <<2, 150, 1>
 \* the cube with one corner pushed out along the diagonal: three square faces break into two triangles each (9 facets); the
 \* same combinatorial structure holds for every positive push, which the harness scales down to 1e-8 of the edge
 Lifted == { <<0, 0, 0>>, <<2, 0, 0>>, <<0, 2, 0>>, <<0, 0, 2>>, <<2, 2, 0>>, <<2, 0, 2>>, <<0, 2, 2>>, <<3, 3, 3>> }
+\* solids with vertical quadrilateral faces (squashed along z by the harness they become thin plates with faces of extreme aspect ratio)
+Prism6 == { <<2, 0, 0>>, <<1, 2, 0>>, <<-1, 2, 0>>, <<-2, 0, 0>>, <<-1, -2, 0>>, <<1, -2, 0>>,
+            <<2, 0, 3>>, <<1, 2, 3>>, <<-1, 2, 3>>, <<-2, 0, 3>>, <<-1, -2, 3>>, <<1, -2, 3>> }
+Frustum == { <<2, 2, 0>>, <<-2, 2, 0>>, <<2, -2, 0>>, <<-2, -2, 0>>, <<1, 1, 3>>, <<-1, 1, 3>>, <<1, -1, 3>>, <<-1, -1, 3>> }
 Zero == <<0, 0, 0>>
 Far == <<40, -30, 20>>
 =============================================================================
